@@ -1,5 +1,69 @@
-import TransportVerif.Model.Nat
-import TransportVerif.Spec.Nat
+import TransportVerif.Link.Nat
+import TransportVerif.Proofs.Nat
+/-
+C02 — NAT address mapping follows the configured RFC 4787 mapping behaviour.
+C03's judgement is proved by the same run theorem and re-exported in Props/C03.lean.
+The statements below are FIXED; only the proofs may change.
+-/
 namespace TV.Props.C02
-theorem placeholder : True := trivial
+open TV TV.Nat TV.NatLink
+
+/-- the addresses of a call are UDP addresses: both ports fit in 16 bits.  `Addr.port` is an unbounded
+    natural in the model; a port above 65535 cannot occur in a datagram. -/
+def portsOk : Op → Prop
+  | .out a b => a.port ≤ 65535 ∧ b.port ≤ 65535
+  | .inb a b => a.port ≤ 65535 ∧ b.port ≤ 65535
+  | .adv _ => True
+
+/-- Main theorem: for every NAT the constructor accepts (all 3×3 behaviours, any lifetime ≥ 0, at
+    least one mapped IP in NAPT mode, 1:1 mode with k pairs) and EVERY history of outbound and
+    inbound datagrams and time steps — of any length, including more allocations than there are
+    ports — every answer of the model is admitted by the judgements of Spec/Nat.lean evaluated
+    on the recorded history: same endpoint and agreeing destination while alive ⇒ the same external
+    address; otherwise a fresh one on the router's IP with a port in 49152..65535 that no live
+    mapping holds (or a refusal once the range is used up); inbound forwarded exactly when a live
+    mapping owns the address and its owner has sent to a matching remote, and then to the owner.
+
+    `hports` (all ports of the calls ≤ 65535) is necessary: without it the statement is false.  The
+    model keeps the mapping of a refused allocation (port 65536 and up, answer `.badPort`) in both
+    maps, so an inbound call to the impossible address `⟨mapped IP, 65536⟩` is forwarded, while the
+    recorder holds no entry for a refused allocation.  Counterexample (checked with `#eval`, 13 min):
+    `NAT.new false .indep .indep 30000 [0x1B010101] []`, 16385 calls `.out ⟨0x0A000002, i⟩ ⟨0x05060708, 80⟩`
+    for `i = 0 … 16384`, then `.inb ⟨0x05060708, 80⟩ ⟨0x1B010101, 65536⟩`: the answer is
+    `.ok ⟨0x0A000002, 16384⟩` and `Obs.ok` of observation 16385 is `false`.
+    Only the destination ports of the inbound calls are used by the proof (`Proofs.Nat.judged`). -/
+theorem judged (mode : Bool) (mb fb : Dep) (lt : Int) (mapped loc : List Nat) (n : NAT) (ops : List Op)
+    (hn : NAT.new mode mb fb lt mapped loc = some n) (hlt : 0 ≤ lt) (hm : mode = false → mapped ≠ [])
+    (hports : ∀ op ∈ ops, portsOk op) :
+    ∀ o ∈ runNew n ops, o.ok (cfgOf n) = true :=
+  Proofs.Nat.judged mode mb fb lt mapped loc n ops hn hlt hm (fun a b h => (hports (.inb a b) h).2)
+
+/-- every external address handed out in NAPT mode is the router's first mapped IP with a port in
+    the dynamic range 49152..65535 — in every reachable state, for every history length -/
+theorem ext_valid (mb fb : Dep) (lt : Int) (mapped loc : List Nat) (n : NAT) (ops : List Op)
+    (hn : NAT.new false mb fb lt mapped loc = some n) (src dst a : Addr)
+    (h : ((runState (n, 0) ops).1.translateOutbound (runState (n, 0) ops).2 src dst).2 = .ok a) :
+    mapped.head? = some a.ip ∧ 49152 ≤ a.port ∧ a.port ≤ 65535 :=
+  Proofs.Nat.ext_valid mb fb lt mapped loc n ops hn src dst a h
+
+/-- the external ports of the mappings held at any time are pairwise different (both maps) -/
+theorem ext_injective (mode : Bool) (mb fb : Dep) (lt : Int) (mapped loc : List Nat) (n : NAT) (ops : List Op)
+    (hn : NAT.new mode mb fb lt mapped loc = some n) :
+    let s := runState (n, 0) ops
+    (s.1.inbound.map (fun e => e.2.mappedPort)).Nodup ∧ (s.1.outbound.map (fun e => e.2.mappedPort)).Nodup :=
+  Proofs.Nat.ext_injective mode mb fb lt mapped loc n ops hn
+
+/-- 1:1 mode: the paired IP is rewritten, the port preserved, unpaired sources dropped — any state -/
+theorem one_to_one_outbound (n : NAT) (now : Int) (src dst : Addr) (h1 : n.one2one = true) :
+    (n.translateOutbound now src dst) =
+      (n, match paired n.localIPs n.mappedIPs src.ip with
+          | some ip => .ok { ip := ip, port := src.port }
+          | none => .drop) :=
+  Proofs.Nat.one_to_one_outbound n now src dst h1
+
+-- non-vacuity: a symmetric NAT gives one endpoint two different external addresses for two remotes
+example : (NAT.new false .addrPort .addrPort 30000 [0x1B010101] []).map (fun n => outs (n, 0)
+    [.out ⟨0x0A000002, 5000⟩ ⟨0x05060708, 80⟩, .out ⟨0x0A000002, 5000⟩ ⟨0x05060708, 81⟩, .out ⟨0x0A000002, 5000⟩ ⟨0x05060708, 80⟩])
+  = some [.o (.ok ⟨0x1B010101, 49152⟩), .o (.ok ⟨0x1B010101, 49153⟩), .o (.ok ⟨0x1B010101, 49152⟩)] := by decide
+
 end TV.Props.C02
